@@ -91,3 +91,26 @@ package handler
 //@ func relevantCaller
 //@   trusted
 //@   modifies nothing
+
+// deadlines only shrink: the wrapped handler gets the request re-bound to WithTimeout(caller's context, configured duration);
+// the timeout arm marks the writer timed out under its lock before returning; exempt requests bypass the wrapper.
+//@ func (h *timeoutHandler) ServeHTTP
+//@   property C04
+//@   flag private_channels noheap:cancelCtx nopanic:cancelCtx
+//@   ghost at entry: armT = false
+//@   ghost at entry: r0 = r
+//@   ghost at before ErrorCtx#0: armT = true
+//@   call go#0: assert reqCtx[r] == ctx && ctxParent[ctx] == reqCtx[r0] && ctxTimeout[ctx] == h.dt && tw.w == w && !tw.timedOut
+//@   call ServeHTTP#0: assert arg_w == w && arg_r == r0
+//@   ensures implies(armT, tw.timedOut)
+//@   loop 0: invariant held(tw.mu)
+
+//@ func (h *timeoutHandler) ServeHTTP closure 0
+//@   property C04
+//@   flag private_channels
+//@   call ServeHTTP#0: assert arg_w == tw && arg_r == r
+//@   ensures_panic false
+
+//@ func TimeoutHandler closure 0
+//@   property C04
+//@   ensures implies(duration <= 0, result == next)
